@@ -246,6 +246,18 @@ def sweep_shard(ctx, sh):
     for po in paths:
         per_path(ctx, po, sh)
         n += 1
+        if sh.get('_judge_native') and po.kind == 'ok' and po.native and po.native.get('status') == 'ok' and flat(po.tokens) != flat_text(po.native['out']):
+            # the real derive disagrees with the prediction made from the post-parse model (e.g. a change in the crate's own
+            # argument parsers, which this level does not execute): the encoding mismatch stays inconclusive, but the property's
+            # oracle is ALSO applied to the real output, so that a genuine violation is reported as such
+            import copy
+            shadow = copy.copy(po)
+            try:
+                shadow.tokens = tokenize(po.native['out'])
+                per_path(ctx, shadow, sh)
+                ctx.cov['sub_checks']['paths judged on the real output after an encoding mismatch'] = ctx.cov['sub_checks'].get('paths judged on the real output after an encoding mismatch', 0) + 1
+            except Exception:
+                pass
     if paths:
         po = paths[(len(paths) * 7) // 11]
         ctx.sample({'shard': {k: v for k, v in sh.items() if not k.startswith('_')}, 'input': po.text, 'outcome': po.kind,
@@ -253,12 +265,14 @@ def sweep_shard(ctx, sh):
     ctx.cov['sub_checks']['paths:' + sh['family']] = ctx.cov['sub_checks'].get('paths:' + sh['family'], 0) + len(paths)
 
 
-def sweep(ctx, families, per_path, extra=None):
+def sweep(ctx, families, per_path, extra=None, judge_native=False):
     import sweeps
     shards = sweeps.all_shards(ctx.tier, ctx.seed, families)
     for sh in shards:
         sh['_mod'] = per_path.__module__
         sh['_fn'] = per_path.__name__
+        if judge_native:
+            sh['_judge_native'] = True
         if extra:
             sh.update(extra)
     ctx.cov['bounds'].update({'families': families, 'shards': len(shards), 'members': '<=3 (+ghosts entries)', 'instructions_per_member': '<=2', 'counterparts': 2,
